@@ -110,6 +110,7 @@ Proof.
     + destruct (dispatch_error a (conns s) (pend s) (threads s)) as [pe ths]. injection H as <-. exact HI.
   - destruct (busy s) as [[a c]|]; [|discriminate]. destruct (mem c (pending s)); [discriminate|].
     destruct (deliver_conn a c (pend s) (threads s)) as [pe ths]. injection H as <-. exact HI.
+  - injection H as <-. exact HI.
 Qed.
 
 Lemma cleanup_InvC : forall s, InvC s -> InvC (cleanup s).
